@@ -10,6 +10,9 @@ Base/Geom.vos Base/Geom.vok Base/Geom.required_vos: Base/Geom.v Base/Bits.vos
 Chess/Fen.vo Chess/Fen.glob Chess/Fen.v.beautified Chess/Fen.required_vo: Chess/Fen.v Chess/Rules.vo
 Chess/Fen.vio: Chess/Fen.v Chess/Rules.vio
 Chess/Fen.vos Chess/Fen.vok Chess/Fen.required_vos: Chess/Fen.v Chess/Rules.vos
+Chess/History.vo Chess/History.glob Chess/History.v.beautified Chess/History.required_vo: Chess/History.v Chess/Rules.vo
+Chess/History.vio: Chess/History.v Chess/Rules.vio
+Chess/History.vos Chess/History.vok Chess/History.required_vos: Chess/History.v Chess/Rules.vos
 Chess/Rules.vo Chess/Rules.glob Chess/Rules.v.beautified Chess/Rules.required_vo: Chess/Rules.v Base/Geom.vo
 Chess/Rules.vio: Chess/Rules.v Base/Geom.vio
 Chess/Rules.vos Chess/Rules.vok Chess/Rules.required_vos: Chess/Rules.v Base/Geom.vos
@@ -31,6 +34,15 @@ Engine/Magic.vos Engine/Magic.vok Engine/Magic.required_vos: Engine/Magic.v Base
 Engine/MagicProofs.vo Engine/MagicProofs.glob Engine/MagicProofs.v.beautified Engine/MagicProofs.required_vo: Engine/MagicProofs.v Engine/Magic.vo
 Engine/MagicProofs.vio: Engine/MagicProofs.v Engine/Magic.vio
 Engine/MagicProofs.vos Engine/MagicProofs.vok Engine/MagicProofs.required_vos: Engine/MagicProofs.v Engine/Magic.vos
+Engine/PositionRep.vo Engine/PositionRep.glob Engine/PositionRep.v.beautified Engine/PositionRep.required_vo: Engine/PositionRep.v Engine/Encoding.vo
+Engine/PositionRep.vio: Engine/PositionRep.v Engine/Encoding.vio
+Engine/PositionRep.vos Engine/PositionRep.vok Engine/PositionRep.required_vos: Engine/PositionRep.v Engine/Encoding.vos
+Engine/RepAbs.vo Engine/RepAbs.glob Engine/RepAbs.v.beautified Engine/RepAbs.required_vo: Engine/RepAbs.v Engine/PositionRep.vo Chess/Rules.vo Chess/Fen.vo
+Engine/RepAbs.vio: Engine/RepAbs.v Engine/PositionRep.vio Chess/Rules.vio Chess/Fen.vio
+Engine/RepAbs.vos Engine/RepAbs.vok Engine/RepAbs.required_vos: Engine/RepAbs.v Engine/PositionRep.vos Chess/Rules.vos Chess/Fen.vos
+Engine/RepProofs.vo Engine/RepProofs.glob Engine/RepProofs.v.beautified Engine/RepProofs.required_vo: Engine/RepProofs.v Engine/PositionRep.vo Engine/EncodingProofs.vo
+Engine/RepProofs.vio: Engine/RepProofs.v Engine/PositionRep.vio Engine/EncodingProofs.vio
+Engine/RepProofs.vos Engine/RepProofs.vok Engine/RepProofs.required_vos: Engine/RepProofs.v Engine/PositionRep.vos Engine/EncodingProofs.vos
 Gen/MagicData.vo Gen/MagicData.glob Gen/MagicData.v.beautified Gen/MagicData.required_vo: Gen/MagicData.v 
 Gen/MagicData.vio: Gen/MagicData.v 
 Gen/MagicData.vos Gen/MagicData.vok Gen/MagicData.required_vos: Gen/MagicData.v 
@@ -67,6 +79,18 @@ Props/C11Sweep_R7.vos Props/C11Sweep_R7.vok Props/C11Sweep_R7.required_vos: Prop
 Props/Properties_C01.vo Props/Properties_C01.glob Props/Properties_C01.v.beautified Props/Properties_C01.required_vo: Props/Properties_C01.v Chess/Rules.vo Chess/RulesFacts.vo
 Props/Properties_C01.vio: Props/Properties_C01.v Chess/Rules.vio Chess/RulesFacts.vio
 Props/Properties_C01.vos Props/Properties_C01.vok Props/Properties_C01.required_vos: Props/Properties_C01.v Chess/Rules.vos Chess/RulesFacts.vos
+Props/Properties_C02.vo Props/Properties_C02.glob Props/Properties_C02.v.beautified Props/Properties_C02.required_vo: Props/Properties_C02.v Chess/Rules.vo Engine/PositionRep.vo Engine/RepAbs.vo
+Props/Properties_C02.vio: Props/Properties_C02.v Chess/Rules.vio Engine/PositionRep.vio Engine/RepAbs.vio
+Props/Properties_C02.vos Props/Properties_C02.vok Props/Properties_C02.required_vos: Props/Properties_C02.v Chess/Rules.vos Engine/PositionRep.vos Engine/RepAbs.vos
+Props/Properties_C03.vo Props/Properties_C03.glob Props/Properties_C03.v.beautified Props/Properties_C03.required_vo: Props/Properties_C03.v Engine/PositionRep.vo Engine/RepAbs.vo Engine/RepProofs.vo
+Props/Properties_C03.vio: Props/Properties_C03.v Engine/PositionRep.vio Engine/RepAbs.vio Engine/RepProofs.vio
+Props/Properties_C03.vos Props/Properties_C03.vok Props/Properties_C03.required_vos: Props/Properties_C03.v Engine/PositionRep.vos Engine/RepAbs.vos Engine/RepProofs.vos
+Props/Properties_C04.vo Props/Properties_C04.glob Props/Properties_C04.v.beautified Props/Properties_C04.required_vo: Props/Properties_C04.v Engine/PositionRep.vo Engine/RepAbs.vo Engine/RepProofs.vo
+Props/Properties_C04.vio: Props/Properties_C04.v Engine/PositionRep.vio Engine/RepAbs.vio Engine/RepProofs.vio
+Props/Properties_C04.vos Props/Properties_C04.vok Props/Properties_C04.required_vos: Props/Properties_C04.v Engine/PositionRep.vos Engine/RepAbs.vos Engine/RepProofs.vos
+Props/Properties_C07.vo Props/Properties_C07.glob Props/Properties_C07.v.beautified Props/Properties_C07.required_vo: Props/Properties_C07.v Chess/Rules.vo Chess/History.vo Chess/RulesFacts.vo
+Props/Properties_C07.vio: Props/Properties_C07.v Chess/Rules.vio Chess/History.vio Chess/RulesFacts.vio
+Props/Properties_C07.vos Props/Properties_C07.vok Props/Properties_C07.required_vos: Props/Properties_C07.v Chess/Rules.vos Chess/History.vos Chess/RulesFacts.vos
 Props/Properties_C11.vo Props/Properties_C11.glob Props/Properties_C11.v.beautified Props/Properties_C11.required_vo: Props/Properties_C11.v Engine/Magic.vo Engine/MagicProofs.vo Props/C11Glue.vo Gen/MagicData.vo Props/C11Sweep_R0.vo Props/C11Sweep_R1.vo Props/C11Sweep_R2.vo Props/C11Sweep_R3.vo Props/C11Sweep_R4.vo Props/C11Sweep_R5.vo Props/C11Sweep_R6.vo Props/C11Sweep_R7.vo Props/C11Sweep_B.vo
 Props/Properties_C11.vio: Props/Properties_C11.v Engine/Magic.vio Engine/MagicProofs.vio Props/C11Glue.vio Gen/MagicData.vio Props/C11Sweep_R0.vio Props/C11Sweep_R1.vio Props/C11Sweep_R2.vio Props/C11Sweep_R3.vio Props/C11Sweep_R4.vio Props/C11Sweep_R5.vio Props/C11Sweep_R6.vio Props/C11Sweep_R7.vio Props/C11Sweep_B.vio
 Props/Properties_C11.vos Props/Properties_C11.vok Props/Properties_C11.required_vos: Props/Properties_C11.v Engine/Magic.vos Engine/MagicProofs.vos Props/C11Glue.vos Gen/MagicData.vos Props/C11Sweep_R0.vos Props/C11Sweep_R1.vos Props/C11Sweep_R2.vos Props/C11Sweep_R3.vos Props/C11Sweep_R4.vos Props/C11Sweep_R5.vos Props/C11Sweep_R6.vos Props/C11Sweep_R7.vos Props/C11Sweep_B.vos
